@@ -100,7 +100,8 @@ def build(dag, W):
     with tree.branch.lock_write():
         for k, v in all_tags(n).items():
             tree.branch.tags.set_tag(k, v)
-    tree.branch.create_checkout(os.path.join(W, "c"), lightweight=False)
+    co = tree.branch.create_checkout(os.path.join(W, "c"), lightweight=False)
+    co.branch.repository.fetch(tree.branch.repository)      # pending merges in the checkout must not be ghosts
     tree.branch.create_checkout(os.path.join(W, "l"), lightweight=True)
     os.mkdir(os.path.join(W, "tpl"))
     for d in ("m", "c", "l"):
